@@ -422,7 +422,7 @@ func (c *Ctx) CheckedCall(fnSpec, callee string, argPats []string, desc, role st
 		c.add("G", fnSpec, r, desc, report.Violated, "error result of "+callee+" does not make the function fail", c.posOf(hits[0]))
 		return
 	}
-	if !c.mustPassAny(f, checked) {
+	if !c.MustPassAny(f, checked) {
 		c.add("G", fnSpec, r, desc, report.Violated, "a success path avoids the checked call to "+callee, c.posOf(checked[0]))
 		return
 	}
